@@ -22,9 +22,80 @@ type State struct {
 	Pooled   T // refs obtained from a sync.Pool in this call
 	Released T // refs given back with Put
 	Frozen   T // refs viewed by an unsafe string
+	// Priv: for a private local (an allocation whose address never escapes), the heap version
+	// right after the last store to it; loads read that version, whatever was written elsewhere since
+	Priv map[*ssa.Alloc][2]T
 }
 
-func (s *State) clone() *State { c := *s; return &c }
+func (s *State) clone() *State {
+	c := *s
+	c.Priv = make(map[*ssa.Alloc][2]T, len(s.Priv))
+	for k, v := range s.Priv {
+		c.Priv[k] = v
+	}
+	return &c
+}
+
+// privateAlloc: the address of the allocation is used only to reach its fields/elements for direct loads and stores.
+func (fx *FX) privateAlloc(a *ssa.Alloc) bool {
+	if v, ok := fx.privCache[a]; ok {
+		return v
+	}
+	ok := true
+	var walk func(v ssa.Value)
+	walk = func(v ssa.Value) {
+		refs := v.Referrers()
+		if refs == nil {
+			ok = false
+			return
+		}
+		for _, r := range *refs {
+			switch x := r.(type) {
+			case *ssa.FieldAddr:
+				walk(x)
+			case *ssa.IndexAddr:
+				if x.X != v {
+					ok = false
+				}
+				walk(x)
+			case *ssa.UnOp:
+				if x.Op != token.MUL {
+					ok = false
+				}
+			case *ssa.Store:
+				if x.Val == v {
+					ok = false
+				}
+			case *ssa.DebugRef:
+			default:
+				ok = false
+			}
+		}
+	}
+	walk(a)
+	fx.privCache[a] = ok
+	return ok
+}
+
+// privRoot returns the private allocation an address is derived from, if any.
+func (fx *FX) privRoot(addr ssa.Value) *ssa.Alloc {
+	for i := 0; i < 32; i++ {
+		switch x := addr.(type) {
+		case *ssa.FieldAddr:
+			addr = x.X
+		case *ssa.IndexAddr:
+			addr = x.X
+		case *ssa.Alloc:
+			if fx.privateAlloc(x) {
+				return x
+			}
+			return nil
+		default:
+			return nil
+		}
+	}
+	return nil
+}
 
 type Obligation struct {
 	Name     string
@@ -101,6 +172,15 @@ type FX struct {
 	retCovers []T
 	labels *labelState
 	dynAssume T
+	stampN   int64
+	privCache map[*ssa.Alloc]bool
+	privByRef map[string]*ssa.Alloc
+	phiN      map[string]int
+	bound     map[ssa.Value]bool
+	inCall    int
+	entryRefs map[string]bool
+	cuts      []cutPoint
+	assertsSeen map[string]bool
 	lineMeta []lineInfo
 	inputs   []inputTerm
 	usedModels map[string]bool
@@ -110,12 +190,18 @@ type FX struct {
 
 type lineInfo struct {
 	postAssume bool
+	droppable  bool // hypothesis contributed by a call (callee ensures, model facts): forgotten after a cut
 	block      *ssa.BasicBlock
+}
+
+type cutPoint struct {
+	idx   int
+	block *ssa.BasicBlock
 }
 
 func (fx *FX) line(s string) {
 	fx.lines = append(fx.lines, s)
-	fx.lineMeta = append(fx.lineMeta, lineInfo{block: fx.curBlock})
+	fx.lineMeta = append(fx.lineMeta, lineInfo{block: fx.curBlock, droppable: fx.inCall > 0 && strings.HasPrefix(s, "(assert")})
 }
 
 func (fx *FX) sym(hint string) string {
@@ -245,6 +331,7 @@ func (fx *FX) oblige(kind, label string, guard, goal T, pos token.Pos, src strin
 	fx.assume(guard, goal)
 	for i := n0; i < len(fx.lines); i++ {
 		fx.lineMeta[i].postAssume = true
+		fx.lineMeta[i].droppable = false
 	}
 }
 
@@ -323,6 +410,27 @@ var maxInt63 = new(big.Int).Sub(new(big.Int).Lsh(bigOne, 63), bigOne)
 const zeroIArr = "((as const (Array Int Int)) 0)"
 const zeroSArr = "zeroSArr"
 
+// Object identities are abstract (Go code can only compare them), so any injective numbering is
+// as good as any other: objects that exist at entry are numbered below refBase, and the n-th
+// allocation performed by the verified function gets the literal refBase+n. Distinctness of
+// fresh objects from each other and from entry objects is then decided by the rewriter.
+const refBase = 1000000
+
+func (fx *FX) newRef() T {
+	fx.stampN++
+	r := num(refBase + fx.stampN)
+	fx.knownFresh[r.S] = true
+	fx.nonNil[r.S] = true
+	return r
+}
+
+// newStamp: allocation time stamps make distinctness of objects an arithmetic fact:
+// objects that exist at entry have stamp <= 0, the n-th allocation of this call has stamp n.
+func (fx *FX) newStamp(r T) T {
+	fx.stampN++
+	return eq(app(SInt, "stamp", r), num(fx.stampN))
+}
+
 func hasStrLeaf(t types.Type) bool {
 	if t == nil {
 		return false
@@ -337,8 +445,8 @@ func hasStrLeaf(t types.Type) bool {
 
 // allocObj allocates a fresh object; zt != nil zeroes it as a value of that type.
 func (fx *FX) allocObj(st *State, hint string, zt types.Type) T {
-	r := fx.fresh("ref_"+hint, SInt)
-	fx.assume(tTrue, and(gt(r, num(0)), not(sel(st.Alloc, r))))
+	r := fx.newRef()
+	fx.assume(tTrue, not(sel(st.Alloc, r)))
 	st.Alloc = fx.def("alloc", sto(st.Alloc, r, tTrue))
 	if zt != nil {
 		st.H = fx.def("H", sto(st.H, r, T{zeroIArr, SIArr}))
@@ -351,18 +459,50 @@ func (fx *FX) allocObj(st *State, hint string, zt types.Type) T {
 	return r
 }
 
+// rH / rHs: the heap version from which object ref is read. Objects that exist at entry are
+// never written by the verified function (every store carries a frame:store / own:global-write
+// obligation, which is assumed once asserted) unless named in its modifies clause, so they are
+// read from the entry heap; this keeps spec terms about inputs identical at every program point.
+func (fx *FX) immutableEntry(ref T) bool {
+	if fx.fn.Name() == "init" {
+		return false
+	}
+	if fx.entryRefs[ref.S] {
+		return true
+	}
+	if id, ok := isLit(ref); ok && id > 0 && id < refBase {
+		return len(fx.modRefs) == 0 || true
+	}
+	return false
+}
+
+func (fx *FX) rH(st *State, ref T) T {
+	if fx.immutableEntry(ref) {
+		return fx.entry.H
+	}
+	return st.H
+}
+
+func (fx *FX) rHs(st *State, ref T) T {
+	if fx.immutableEntry(ref) {
+		return fx.entry.Hs
+	}
+	return st.Hs
+}
+
 func (fx *FX) loadLeaves(st *State, ref, off T, t types.Type) []T {
 	ls := layout(t)
 	out := make([]T, len(ls))
+	hI, hS := fx.rH(st, ref), fx.rHs(st, ref)
 	for i, l := range ls {
 		idx := add(off, num(int64(i)))
 		switch l.kind {
 		case lkStr:
-			out[i] = sel(sel(st.Hs, ref), idx)
+			out[i] = sel(sel(hS, ref), idx)
 		case lkBool:
-			out[i] = intToBool(sel(sel(st.H, ref), idx))
+			out[i] = intToBool(sel(sel(hI, ref), idx))
 		default:
-			out[i] = sel(sel(st.H, ref), idx)
+			out[i] = sel(sel(hI, ref), idx)
 		}
 	}
 	return out
@@ -598,9 +738,15 @@ func (fx *FX) run() {
 	fx.knownFresh = map[string]bool{}
 	fx.nonNil = map[string]bool{}
 	fx.dynAssume = tTrue
+	fx.privCache = map[*ssa.Alloc]bool{}
+	fx.privByRef = map[string]*ssa.Alloc{}
+	fx.phiN = map[string]int{}
+	fx.bound = map[ssa.Value]bool{}
+	fx.entryRefs = map[string]bool{}
+	fx.assertsSeen = map[string]bool{}
 
 	// entry state
-	st := &State{PC: tTrue}
+	st := &State{PC: tTrue, Priv: map[*ssa.Alloc][2]T{}}
 	st.H = fx.fresh("H0", SHeap)
 	st.Hs = fx.fresh("Hs0", SSHeap)
 	st.Alloc = fx.fresh("alloc0", SSet)
@@ -686,6 +832,9 @@ func (fx *FX) run() {
 				fx.fail("modifies: not a pointer or slice")
 			}
 		}
+		for _, m := range fx.modRefs {
+			delete(fx.entryRefs, m.S)
+		}
 		for _, sp := range fx.fc.Splits {
 			t := fx.evalInt(env, sp.E)
 			t = fx.def("split", t)
@@ -704,6 +853,13 @@ func (fx *FX) run() {
 	order := fx.blockOrder()
 	for _, b := range order {
 		fx.execBlock(b, st)
+	}
+	if fx.fc != nil {
+		for _, a := range fx.fc.Asserts {
+			if !fx.assertsSeen[a.C.Label] {
+				fx.fail("contract-mismatch: assert %s names a merge point that does not exist", a.C.Label)
+			}
+		}
 	}
 }
 
@@ -755,6 +911,35 @@ func (fx *FX) addInputTerms(name string, t types.Type, v Val, st *State) {
 
 func add2(a, b T) T { return add(a, b) }
 
+// bindName: value v is the next distinct SSA value bound to source variable name; cut
+// assertions "assert <name> <n> : e" are checked (and then assumed) at the n-th binding.
+func (fx *FX) bindName(st *State, name string, v ssa.Value) {
+	if fx.fc == nil || name == "" || len(fx.fc.Asserts) == 0 {
+		return
+	}
+	if fx.bound[v] {
+		return
+	}
+	fx.bound[v] = true
+	fx.phiN[name]++
+	for _, a := range fx.fc.Asserts {
+		if a.Local == name && a.N == fx.phiN[name] {
+			env := fx.entryEnv(st)
+			env.local = map[string]Val{name: fx.vals[v]}
+			env.inLoop = true
+			fx.assertsSeen[a.C.Label] = true
+			var pos token.Pos
+			if in, ok := v.(ssa.Instruction); ok {
+				pos = in.Pos()
+			}
+			fx.oblige("assert", a.C.Label, st.PC, fx.evalBool(env, a.C.E), pos, a.C.Src)
+			if a.Cut {
+				fx.cuts = append(fx.cuts, cutPoint{idx: len(fx.lines), block: fx.curBlock})
+			}
+		}
+	}
+}
+
 func (fx *FX) fail(format string, a ...any) {
 	fx.u.errors = append(fx.u.errors, fmt.Sprintf("%s: ", fx.name)+fmt.Sprintf(format, a...))
 }
@@ -765,7 +950,8 @@ func (fx *FX) markEntryAllocated(st *State, t types.Type, v Val) {
 	ts := flatten(v)
 	for i, l := range ls {
 		if l.kind == lkRef {
-			fx.assume(tTrue, or(eq(ts[i], num(0)), sel(st.Alloc, ts[i])))
+			fx.assume(tTrue, or(eq(ts[i], num(0)), and(sel(st.Alloc, ts[i]), lt(ts[i], num(refBase)))))
+			fx.entryRefs[ts[i].S] = true
 		}
 	}
 }
@@ -958,6 +1144,15 @@ func (fx *FX) mergeStates(conds []T, sts []*State) *State {
 	res.Released = fx.def("released", res.Released)
 	res.Frozen = fx.def("frozen", res.Frozen)
 	res.PC = fx.def("pc", or(conds...))
+	// private locals: keep the version only if all predecessors agree
+	for a, v := range res.Priv {
+		for _, o := range sts {
+			if ov, ok := o.Priv[a]; !ok || ov != v {
+				delete(res.Priv, a)
+				break
+			}
+		}
+	}
 	return res
 }
 
@@ -1004,7 +1199,12 @@ func (fx *FX) execBlock(b *ssa.BasicBlock, entry *State) {
 					}
 				}
 				fx.vals[phi] = fx.defVal("phi_"+phi.Comment, phi.Type(), v)
+				fx.bindName(st, phi.Comment, phi)
 			}
+		}
+		// dominance fact (valid, redundant): reaching this block implies having reached its dominator
+		if d := b.Idom(); d != nil && fx.out[d] != nil && li == nil {
+			fx.assume(st.PC, fx.out[d].PC)
 		}
 		fx.curDefers = nil
 		// defers: union of predecessor lists (only straight-line defer use is supported)
@@ -1092,6 +1292,7 @@ func (fx *FX) enterLoop(li *loopInfo, h *ssa.BasicBlock, conds []T, sts []*State
 	for _, phi := range phis {
 		fx.vals[phi] = fx.havoc("loop_"+phi.Comment, phi.Type(), tTrue)
 	}
+	st.Priv = map[*ssa.Alloc][2]T{}
 	li.st = st
 	fx.curBlock = h
 	env := fx.loopEnv(li, st, func(phi *ssa.Phi) Val { return fx.vals[phi] }, phis)
@@ -1367,13 +1568,6 @@ func (e *Env) lookup(name string) (Val, bool) {
 	if strings.HasSuffix(name, "0") {
 		if v, ok := fx.params[name[:len(name)-1]]; ok {
 			return v, true
-		}
-	}
-	if e.inLoop {
-		if sv, ok := fx.names[name]; ok {
-			if v, ok := fx.vals[sv]; ok {
-				return v, true
-			}
 		}
 	}
 	if v, ok := fx.params[name]; ok {
